@@ -206,6 +206,32 @@ inline void flush(uint32_t* out) {
     for (unsigned i = 0; i < MAXTERM; ++i) { out[O_TERM0 + TERM_SLOTS * i] = hv_S.tline[i]; out[O_TERM0 + TERM_SLOTS * i + 1] = hv_S.tcol[i]; out[O_TERM0 + TERM_SLOTS * i + 2] = hv_S.tval[i]; }
 }
 
+// ---- contexts (C13)
+struct ctx_t { unsigned counter = 0; unsigned tag = 0; };
+struct mo_ctx { unsigned counter = 0; unsigned tag = 0; mo_ctx() = default; mo_ctx(const mo_ctx&) = delete; mo_ctx& operator=(const mo_ctx&) = delete; mo_ctx(mo_ctx&&) = default; };
+extern const void* hv_ctx_addr;      // address of the object the caller supplied
+extern unsigned hv_ctx_tag;
+template<typename C> inline void ctx_touch(C& c) {
+    if (hv_ctx_addr && (const void*)&c != hv_ctx_addr) hv_S.flags |= 8u;      // not the very object the caller supplied
+    if (c.tag != hv_ctx_tag) hv_S.flags |= 8u;
+    if constexpr (!std::is_const_v<C>) c.counter++;
+}
+// ---- custom lexer driven by harness-chosen answers (C18): the answer to a request at offset k is (idx[k], len[k])
+#ifndef LEXMAX
+#define LEXMAX 8
+#endif
+struct lex_state { const char* base; unsigned idx[LEXMAX], len[LEXMAX], calls, hash, bad; };
+extern lex_state hv_L;
+struct ans_lexer {
+    template<typename It, typename ES>
+    constexpr auto match(ctpg::match_options, ctpg::source_point, It start, It end, ES&) {
+        unsigned pos = (unsigned)(start.ptr - hv_L.base);
+        hv_L.calls++; hv_L.hash = ((hv_L.hash << 5) | (hv_L.hash >> 27)) + pos + 0x9e3779b9u;
+        if (pos >= LEXMAX) { hv_L.bad = 1; return ctpg::recognized_term{}; }
+        if (hv_L.idx[pos] == 0xffffu) return ctpg::recognized_term{};
+        return ctpg::recognized_term(ctpg::size16_t(hv_L.idx[pos]), hv_L.len[pos]);
+    }
+};
 // token-level custom lexer: byte 'a'+k is term k (k < NT), length 1; anything else: no match
 template<unsigned NT>
 struct tok_lexer {
